@@ -575,6 +575,10 @@ X_ExportPure_C == Post = pre
 \* C02: a held-back block is invisible -- heads and committed trees are those of the applied blocks alone
 C02_HeldBackInvisible_A == Acting /\ HasObs(Post) /\ ~Damaged /\ DPost.applied # Core!Names(Core!Blocks(DPost.items))
 C02_HeldBackInvisible_C == Rng(Post.heads) = Core!HeadsOf(DPost.ablocks) /\ TreeFromBlocksOn(Post, DPost)
+\* C06: an edit made while the array is in conflict is one of the concurrent versions: every element of the
+\* submitted document must be shown, each exactly once (the same condition as C04's weak clause)
+C06_EditUnderConflict_A == C04_WeakUnderArrayConflict_A
+C06_EditUnderConflict_C == C04_WeakUnderArrayConflict_C
 \* C07: once committed, a resolution propagates and independent resolutions converge (C01's predicates on the
 \* histories in which something was resolved)
 C07_Propagates_A == h.resolved /\ C01_SyncReaches_A
@@ -599,7 +603,7 @@ Names == <<"C08_Returns", "C05_WinnerRule", "C05_TreeFromBlocks", "C02_AppliedCo
            "C15_Guards", "C15_Unstage", "C15_ExportReplay", "C19_Canonical", "C19_LeafOrderTotal", "C09_RetryDurable", "D_FrameStorage", "D_FrameMemory",
            "X_UpdateStep", "X_ResolveStep", "X_ResolveRefused", "X_MeldStep", "X_UnstageStep", "X_CommitStep",
            "C15_StageComplete", "X_ObjStep", "X_SnapshotStep", "X_ExportPure",
-           "C02_HeldBackInvisible", "C07_Propagates", "C07_ResolvedConverge">>
+           "C02_HeldBackInvisible", "C07_Propagates", "C07_ResolvedConverge", "C06_EditUnderConflict">>
 
 AllChecks ==
     /\ Chk(1, Names[1], C08_Returns_A, C08_Returns_C)
@@ -656,6 +660,7 @@ AllChecks ==
     /\ Chk(52, Names[52], C02_HeldBackInvisible_A, C02_HeldBackInvisible_C)
     /\ Chk(53, Names[53], C07_Propagates_A, C07_Propagates_C)
     /\ Chk(54, Names[54], C07_ResolvedConverge_A, C07_ResolvedConverge_C)
+    /\ Chk(55, Names[55], C06_EditUnderConflict_A, C06_EditUnderConflict_C)
 
 \* the same predicates as individually named invariants (MeldaTraceStrict.cfg)
 C08_Returns == C08_Returns_A => C08_Returns_C
